@@ -125,7 +125,8 @@ type Sim struct {
 	Again bool // set by the scenario to request another phase
 	Carry any  // state carried across phases
 
-	BurstMax  int // >0: burst stepping
+	RaceMode  bool // set by the C09 wrapper: scenarios may add concurrency their own oracles do not model
+	BurstMax  int  // >0: burst stepping
 	burstLeft int
 
 	memberClock int64 // order of writes accepted by scripted members (under mu)
